@@ -237,12 +237,15 @@ package satisfaction_levels
 //@ wire IdealCoefficientSatisfactionLevels
 //@   property C01 C14 C20
 //@   json Coefficient=coefficient MaxValue=maxValue MinValue=minValue
+//@   gotypes Coefficient=float64 MaxValue=float64 MinValue=float64
 //@ wire ThresholdSatisfactionLevels
 //@   property C01 C07 C14 C20
 //@   json Thresholds=thresholds
+//@   gotypes Thresholds=[]model.Weights
 //@ wire ThresholdsUpdate
 //@   property C01 C07 C14 C20
 //@   json Thresholds=thresholds
+//@   gotypes Thresholds=[]model.Weights
 
 // ---- registered names (what a request must say to select this object; what error messages list)
 //@ func (*ThresholdSatisfactionLevelsSource).Identifier
